@@ -80,7 +80,6 @@ func getRig() *httpRig {
 		// symlinks pointing out of the roots
 		os.Symlink("../../secret.json", filepath.Join(r.static, "link-out.json"))
 		os.Symlink("../..", filepath.Join(r.static, "dir-out"))
-		os.Symlink("../../secret.json", filepath.Join(r.groups, "linked.json"))
 		must(os.WriteFile(filepath.Join(r.data, "config.json"), []byte(`{"writableGroups":true,"users":{"root":{"password":"rootpw-MARKSECRETroot","permissions":"admin"},"notadmin":{"password":"napw","permissions":"op"}}}`), 0o600))
 		group.Directory = r.groups
 		group.DataDirectory = r.data
@@ -105,6 +104,8 @@ func getRig() *httpRig {
 	})
 	return theRig
 }
+
+var errInconclusive = fmt.Errorf("inconclusive: connection reset while still sending the request")
 
 type rawResp struct {
 	Status int
@@ -139,11 +140,14 @@ func (r *httpRig) raw(method, target string, hdr map[string]string, body []byte)
 	}
 	b.WriteString("Connection: close\r\n\r\n")
 	b.Write(body)
-	if _, err := c.Write(b.Bytes()); err != nil {
-		return nil, err
-	}
+	_, werr := c.Write(b.Bytes())
 	resp, err := http.ReadResponse(bufio.NewReader(c), &http.Request{Method: method})
 	if err != nil {
+		if werr != nil {
+			// the server answered and closed before reading a large body: the reset can
+			// destroy the response in flight; this is not "no response"
+			return nil, errInconclusive
+		}
 		return nil, err
 	}
 	defer resp.Body.Close()
